@@ -202,8 +202,16 @@ fn test(ctx: &Ctx, case: &LiteCase, st: &mut Stats) -> Verdict {
         let out = exec(&db, &case.sql).await;
         let panics = take_panics();
         st.eval();
+        // rows although an operator task panicked at a site of the "plan not executable" kind (the
+        // nested-loop join's todo!() for RIGHT/FULL joins can end a statement with Ok and no rows:
+        // F-C11-nl-right-full): no answer, not an answer to compare
+        let plan_panic = matches!(out, Out::Rows(_)) && !panics.is_empty() && no_answer(&Out::Panicked(String::new()), &panics).is_ok();
         let v = match &out {
             Out::Rejected(_) => Verdict::Discard("rejected by the risinglight binder"),
+            Out::Rows(_) if plan_panic => {
+                st.class(&format!("rows-despite-panic:{}", panic_sig(&panics[0])));
+                Verdict::Discard("risinglight returned an error (executability is decided by C17)")
+            }
             Out::Rows(rows) => {
                 for f in case.query.features() {
                     st.class(f);
@@ -223,7 +231,7 @@ fn test(ctx: &Ctx, case: &LiteCase, st: &mut Stats) -> Verdict {
                         if !ctx.strict && !ablate.is_empty() {
                             risinglight::verif::set_disabled_rules(ablate);
                             let o2 = exec(&db, &case.sql).await;
-                            let _ = take_panics();
+                            let p2 = take_panics();
                             risinglight::verif::set_disabled_rules(vec![]);
                             if let Out::Rows(r2) = &o2 {
                                 if compare_results(&case.query, &lrows, r2, lunl.as_deref()).is_ok() {
@@ -231,6 +239,18 @@ fn test(ctx: &Ctx, case: &LiteCase, st: &mut Stats) -> Verdict {
                                     close(&case.db, &db).await;
                                     return Verdict::Pass;
                                 }
+                            }
+                            // without the listed rules the statement has no executable plan (a
+                            // listed C17 finding, e.g. the nested-loop FULL join): the mismatch can
+                            // neither be attributed to the unsound rules nor be separated from them
+                            let no_plan = match &o2 {
+                                Out::Rows(_) => !p2.is_empty() && no_answer(&Out::Panicked(String::new()), &p2).is_ok(),
+                                o => no_answer(o, &p2).is_ok(),
+                            };
+                            if no_plan {
+                                st.class("mismatch-not-separable-from-listed-unsound-rules");
+                                close(&case.db, &db).await;
+                                return Verdict::Discard("mismatch with the listed unsound rules on, no executable plan with them off");
                             }
                         }
                         fail(
